@@ -40,15 +40,15 @@ def C06_full : Prop :=
   ∀ (cfg : Cfg) (forest : List Node) (fuel : Nat) (roots : List Node),
     (serial cfg forest fuel roots).Perm (parallel cfg forest fuel roots)
 
-/-- It is false of the current tree (finding F15): root `1` on device 1 holds the directory `2` on
+/-- It is false of the current tree (finding F25): root `1` on device 1 holds the directory `2` on
 device 2, rejected by the filter, followed by the file `3`.  The serial walker calls
 `skip_current_dir` for `2`, which walkdir never pushed, pops the root's listing and never reports
 `1/3`; the parallel walker does. -/
 theorem C06_full_fails : ¬ C06_full := by
   intro h
-  have hp := h f15Cfg f15Forest 3 f15Forest
-  have h1 : serial f15Cfg f15Forest 3 f15Forest = [.entry [1]] := by decide
-  have h2 : parallel f15Cfg f15Forest 3 f15Forest = [.entry [1], .entry [1, 3]] := by decide
+  have hp := h f25Cfg f25Forest 3 f25Forest
+  have h1 : serial f25Cfg f25Forest 3 f25Forest = [.entry [1]] := by decide
+  have h2 : parallel f25Cfg f25Forest 3 f25Forest = [.entry [1], .entry [1, 3]] := by decide
   rw [h1, h2] at hp
   have := hp.length_eq
   simp at this
